@@ -3,7 +3,7 @@
    Proved: the lexer mechanism (code-level model of rsql/lexer.go) and the round trip of the reference
    grammar.  NOT proved: totality of the hand-written Go parser over all byte strings -- that part is
    tested (fuzzing under recover and a 2 s limit), see bin/props.d/C11.json. *)
-From SV Require Import Model.Lexer Model.Stmt Spec.LexSpec Proofs.LexerProofs Proofs.LexerLayout Proofs.StmtProofs Proofs.StmtLiteral.
+From SV Require Import Model.Lexer Model.Stmt Model.MatchWithin Spec.LexSpec Proofs.LexerProofs Proofs.LexerLayout Proofs.StmtProofs Proofs.StmtLiteral Proofs.MatchWithinProofs.
 From Coq Require Import String.
 Local Open Scope N_scope.
 
@@ -100,6 +100,57 @@ Theorem C11_literal_acceptance : forall f toks,
 Proof. exact parse_ref_accepts_relit. Qed.
 Print Assumptions C11_literal_acceptance.
 
+(* ---- MATCH_RECOGNIZE ... WITHIN: the bound is the written one (Model/MatchWithin.v) ----
+   A count written as the decimal m / 10^k with a unit of u nanoseconds denotes floor (m * u / 10^k) ns:
+   the exact product rounded towards zero ... *)
+Theorem C11_within_floor : forall m k u,
+  dur_floor (mkDec m k) u * pow10 k <= m * u /\ m * u < (dur_floor (mkDec m k) u + 1) * pow10 k.
+Proof. exact dur_floor_bounds. Qed.
+Print Assumptions C11_within_floor.
+
+(* ... exactly the product whenever that is a whole number of nanoseconds (1.5 SECONDS, 0.25 S, 7.5 MS) *)
+Theorem C11_within_exact : forall m k u, (m * u) mod pow10 k = 0 -> dur_floor (mkDec m k) u * pow10 k = m * u.
+Proof. exact dur_floor_exact. Qed.
+Print Assumptions C11_within_exact.
+
+(* the fractional digits count: the bound is (whole part) * unit + floor (fraction * unit); it equals the
+   whole part times the unit ONLY when the fraction is worth less than one nanosecond *)
+Theorem C11_within_whole_plus_fraction : forall m k u,
+  dur_floor (mkDec m k) u = (m / pow10 k) * u + ((m mod pow10 k) * u) / pow10 k.
+Proof. exact dur_floor_split. Qed.
+Print Assumptions C11_within_whole_plus_fraction.
+
+Theorem C11_within_fraction_counts : forall m k u,
+  dur_floor (mkDec m k) u = (m / pow10 k) * u <-> (m mod pow10 k) * u < pow10 k.
+Proof. exact dur_floor_truncated_iff. Qed.
+Print Assumptions C11_within_fraction_counts.
+
+(* the unit word is case-insensitive; the same bound written in a finer unit (1.5 S = 1500 MS), with a
+   trailing zero (1.50 = 1.5) is the same bound *)
+Theorem C11_within_unit_case : forall n a b, map upper a = map upper b -> within_count n a = within_count n b.
+Proof. exact within_count_case. Qed.
+Print Assumptions C11_within_unit_case.
+
+Theorem C11_within_rescale : forall m k f u, dur_floor (mkDec m k) (f * u) = dur_floor (mkDec (m * f) k) u.
+Proof. exact dur_floor_rescale. Qed.
+Print Assumptions C11_within_rescale.
+
+Theorem C11_within_trailing_zero : forall ip fp u, ip <> [] -> fp <> [] -> forallb is_digit ip = true -> forallb is_digit fp = true ->
+  within_count (ip ++ 46 :: fp ++ [48]) u = within_count (ip ++ 46 :: fp) u.
+Proof. exact within_count_trailing_zero. Qed.
+Print Assumptions C11_within_trailing_zero.
+
+(* count and unit written apart (WITHIN 1.5 SECONDS) or together in a quoted Go duration (WITHIN '1.5s'):
+   one bound, for every count digits[.digits] and every pair of spellings of one unit *)
+Theorem C11_within_quoted_agrees : forall ip fp dot su U un,
+  ip <> [] -> forallb is_digit ip = true -> forallb is_digit fp = true ->
+  forallb is_unitch su = true -> assoc su go_units = Some un -> unit_ns U = Some un ->
+  (dot = true -> fp <> []) -> (dot = false -> fp = []) ->
+  go_duration (ip ++ (if dot then 46 :: fp else fp) ++ su)
+  = option_map Z.of_N (within_count (ip ++ (if dot then 46 :: fp else fp)) U).
+Proof. exact within_quoted_agrees. Qed.
+Print Assumptions C11_within_quoted_agrees.
+
 (* ---- non-vacuity ---- *)
 (* SELECT DISTINCT a, avg(t) AS x FROM s LEFT JOIN m AS mm ON i = j WHERE a > 1 AND n LIKE 'LIMIT 5'
    GROUP BY a, TumblingWindow('5s') HAVING x > 2 WITH (TIMESTAMP='ts') ORDER BY x DESC LIMIT 3 *)
@@ -160,3 +211,23 @@ Proof.
   - right. right. right. right. right. right. right. left. reflexivity.
   - eexists. repeat split; reflexivity.
 Qed.
+
+(* MATCH_RECOGNIZE: four spellings of one 1.5 s bound (fraction + unit word in two casings / layouts, finer
+   unit, quoted) are read as the same clause; the hypotheses of C11_within_quoted_agrees are satisfiable; a
+   fraction worth less than the unit's grain is dropped, anything else is kept (0.25 S = 250 ms, not 0) *)
+Definition ex_mr (w : string) : list token :=
+  tokens (bs "SELECT * FROM stream MATCH_RECOGNIZE (PARTITION BY `device id` ORDER BY ts MEASURES A.v AS av ALL ROWS PER MATCH AFTER MATCH SKIP TO FIRST B PATTERN (A B+) "%string
+          ++ bs w ++ bs " DEFINE A AS A.v > 0, B AS note = 'WITHIN 9 HOURS')"%string).
+Example C11_example_within :
+  (exists sp, mr_ref (ex_mr "WITHIN 1.5 SECONDS") = Some (Some sp) /\ mr_within sp = 1500000000%Z
+     /\ mr_part sp = [bs "device id"%string] /\ mr_all sp = true /\ mr_skip sp = 2 /\ mr_defines sp = [bs "A"%string; bs "B"%string]
+     /\ mr_ref (ex_mr "within
+ 1.50	seconds") = Some (Some sp)
+     /\ mr_ref (ex_mr "WITHIN 1500 ms") = Some (Some sp)
+     /\ mr_ref (ex_mr "WITHIN '1.5s'") = Some (Some sp)
+     /\ mr_ref (ex_mr "WITHIN '1s500ms'") = Some (Some sp))
+  /\ within_count (bs "0.25"%string) (bs "S"%string) = Some 250000000
+  /\ within_count (bs "0.5"%string) (bs "ns"%string) = Some 0
+  /\ go_duration (bs "1.5s"%string) = option_map Z.of_N (within_count (bs "1.5"%string) (bs "SECONDS"%string))
+  /\ mr_ref (tokens (bs "SELECT a FROM t WHERE note = 'MATCH_RECOGNIZE ('"%string)) = Some None.
+Proof. vm_compute. split; [eexists; repeat split; reflexivity | repeat split; reflexivity]. Qed.
